@@ -302,6 +302,9 @@ var c23Programs = []string{
 	"counter c\n/(\\S+)/ {\n  $1 == \"\\\\\\\\\" {\n    c++\n  }\n}\n",
 	"timer t\n/^(\\d+)$/ {\n  t = $1\n}\n",
 	"counter c\n/^(\\S+) (\\S+)/ {\n  $1 =~ /^f/ && $2 !~ \"ba+r\" {\n    c++\n  }\n}\n",
+	// the right side of a match written as an expression in parentheses (the checker wraps it in a
+	// pattern node; it keeps its parentheses), beside patterns, which have none
+	"counter c\nconst A /x+/\n/^(\\S+) (\\S+)/ {\n  $1 =~ (\"a\" + \"b\") {\n    c++\n  }\n  $1 !~ (\"a\" + $2) {\n    c++\n  }\n  $2 =~ /a/ + A + /b/ {\n    c++\n  }\n  $2 =~ (tolower($1) + \"$\") {\n    c++\n  }\n  $1 =~ \"lit\" {\n    c++\n  }\n  $1 =~ (\"lit\") {\n    c++\n  }\n}\n",
 	"counter c\n# a comment\n/x/ {  # trailing\n  c++\n}\n",
 	// characters that mean something to a printing routine: % in operators, strings and patterns
 	"gauge g\n/^(\\d+)$/ {\n  g = $1 % 7\n}\n",
